@@ -295,7 +295,8 @@ func (vc *VC) callFunc(st *State, call *ast.CallExpr, callee *types.Func, sig *t
 
 // checkCallAsserts: `callsite F N requires e` clauses of the function under contract that name this call.
 func (vc *VC) checkCallAsserts(st *State, call *ast.CallExpr, origin *types.Func, args []*Value) {
-	if vc.contract == nil || vc.inlineDepth > 0 || len(vc.contract.CallAsserts) == 0 || vc.specMode > 0 {
+	// (a call inside a function literal of the function under contract is one of its calls too: callIndex decides)
+	if vc.contract == nil || len(vc.contract.CallAsserts) == 0 || vc.specMode > 0 {
 		return
 	}
 	ord, ok := vc.callIndex[call]
